@@ -16,7 +16,7 @@ PARSER_FILES = re.compile(
     r"core/src/(protocol/zmtp/(manual_parser|command|greeting|codec|engine)\.rs|security/|message/mod\.rs|socket/core/inproc_reader\.rs|io_uring_backend/(zmtp_handler|worker/multishot_reader)\.rs)")
 
 PANIC_CALL = re.compile(
-    r"(Option|Result)::(unwrap|expect|unwrap_err|expect_err)$|^core::panicking|^std::rt::begin_panic|slice::index::index(_mut)?$|Index<.*>>::index$|IndexMut<.*>>::index_mut$|::copy_from_slice$|BytesMut::split_to$|BytesMut::split_off$|Bytes::split_to$|Bytes::split_off$|Bytes::slice$|Buf>::advance$|Buf::advance$|Buf::get_|Buf::copy_to_bytes$|Buf::copy_to_slice$|VecU8::(push|insert|remove|with_capacity|extend)$|FrameBatch::(push|insert|remove)$|Instant as std::ops::Add|Duration as std::ops::Mul|Vec::(remove|swap_remove|insert|drain|split_off)$|RefCell::borrow(_mut)?$|::split_at(_mut)?$")
+    r"(Option|Result)::(unwrap|expect|unwrap_err|expect_err)$|^core::panicking|^std::rt::begin_panic|slice::index::index(_mut)?$|Index<.*>>::index$|IndexMut<.*>>::index_mut$|::copy_from_slice$|BytesMut::split_to$|BytesMut::split_off$|Bytes::split_to$|Bytes::split_off$|Bytes::slice$|Buf>::advance$|Buf::advance$|Buf::get_|Buf::copy_to_bytes$|Buf::copy_to_slice$|VecU8::(push|insert|remove|with_capacity|extend)$|FrameBatch::(push|insert|remove)$|FrameBatch as std::iter::Extend<.*>>::extend$|FrameBatch as std::convert::From<.*>>::from$|Instant as std::ops::Add|Duration as std::ops::Mul|Vec::(remove|swap_remove|insert|drain|split_off)$|RefCell::borrow(_mut)?$|::split_at(_mut)?$")
 
 
 def ingress_roots(prog):
@@ -72,14 +72,140 @@ def index_of_assert(body, t):
     return None
 
 
+
+def base_def_call(body, o, depth=0):
+    """follow refs / moves / identity calls from an operand to the call that created the underlying local"""
+    for _ in range(10):
+        if o["c"] not in ("copy", "move"):
+            return None
+        l = o["p"]["l"]
+        ds = body.whole_defs(l)
+        if len(ds) != 1:
+            return None
+        d = ds[0]
+        if d[0] == "call":
+            c = mir.Call(body, d[1], d[3])
+            if c.declared in mir.IDENTITY_CALLS and c.args and c.name in ("deref", "deref_mut", "as_ref", "as_mut", "borrow", "borrow_mut"):
+                o = c.args[0]
+                continue
+            return c
+        if d[0] == "assign":
+            rv = d[3]["r"]
+            if rv["k"] in ("use", "cast"):
+                o = rv["o"]
+                continue
+            if rv["k"] in ("ref", "copyderef", "rawptr"):
+                o = {"c": "copy", "p": {"l": rv["p"]["l"], "pr": [], "s": "", "ty": ""}}
+                continue
+        return None
+    return None
+
+
+def base_array_len(body, o):
+    """N if the operand is (a reference / unsizing of) a local of type [u8; N] / &[u8; N]"""
+    for _ in range(10):
+        if o["c"] not in ("copy", "move"):
+            return None
+        l = o["p"]["l"]
+        m = re.match(r"^&?(?:'?\w+ )?(?:mut )?\[u8; (\d+)\]$", body.locals[l])
+        if m and not o["p"]["pr"]:
+            return int(m.group(1))
+        ds = body.whole_defs(l)
+        if len(ds) != 1 or ds[0][0] != "assign":
+            return None
+        rv = ds[0][3]["r"]
+        if rv["k"] in ("use", "cast"):
+            o = rv["o"]
+            continue
+        if rv["k"] in ("ref", "copyderef"):
+            m = re.match(r"^\[u8; (\d+)\]$", rv["p"]["ty"])
+            if m:
+                return int(m.group(1))
+            o = {"c": "copy", "p": {"l": rv["p"]["l"], "pr": [], "s": "", "ty": ""}}
+            if rv["p"]["pr"]:
+                return None
+            continue
+        return None
+    return None
+
+
+def possible_ints(body, o, depth=0):
+    """finite set of integer values an operand may hold (constants joined over branches, +,-,*), or None"""
+    if depth > 8:
+        return None
+    if o["c"] == "const":
+        return {o["int"]} if "int" in o else None
+    if o["c"] not in ("copy", "move"):
+        return None
+    p = o["p"]
+    if p["pr"]:
+        # `.0` of a checked-arithmetic tuple
+        if len(p["pr"]) == 1 and p["pr"][0][0] == "field" and p["pr"][0][2] == "0":
+            return possible_ints(body, {"c": "copy", "p": {"l": p["l"], "pr": [], "s": "", "ty": ""}}, depth + 1)
+        return None
+    out = set()
+    ds = body.whole_defs(p["l"])
+    if not ds:
+        return None
+    for d in ds:
+        if d[0] != "assign":
+            return None
+        rv = d[3]["r"]
+        if rv["k"] in ("use", "cast"):
+            v = possible_ints(body, rv["o"], depth + 1)
+        elif rv["k"] == "binop" and rv["op"].replace("WithOverflow", "").replace("Unchecked", "") in ("Add", "Sub", "Mul"):
+            a, b = possible_ints(body, rv["a"], depth + 1), possible_ints(body, rv["b"], depth + 1)
+            if a is None or b is None:
+                return None
+            op = rv["op"].replace("WithOverflow", "").replace("Unchecked", "")
+            v = set()
+            for x in a:
+                for y in b:
+                    v.add(x + y if op == "Add" else x - y if op == "Sub" else x * y)
+        else:
+            return None
+        if v is None or len(v) > 8:
+            return None
+        out |= v
+    return out or None
+
+
 LEN_RX = r"^[\w:<>' ,&\[\]]*::(len|remaining)\(%s\)$"
 
 
-def length_facts(body, blk, base):
-    """[(X, delta, guard)]: on every path to blk, len(base) >= X + delta, X a provenance string ('const:N' for constants)."""
+def length_facts(body, blk, base, base_op=None):
+    """[(X, delta, guard)]: on every path to blk, len(base) >= X + delta, X a provenance string ('const:N' for constants).
+    guard may be None for facts that hold by construction (fixed-size array, result of split_to(n))."""
     out = []
     if base is None:
         return out
+    if base_op is not None:
+        n = base_array_len(body, base_op)
+        if n is not None:
+            out.append(("const:%d" % n, 0, None))
+        dc = base_def_call(body, base_op)
+        if dc is not None:
+            if dc.name in ("split_to",) and len(dc.args) >= 2:
+                out.append((body.provenance(dc.args[1]), 0, None))
+                vs = body.eval_ints(dc.args[1])
+                if vs:
+                    out.append(("const:%d" % min(vs), 0, None))
+            if dc.name in ("index", "index_mut") and len(dc.args) >= 2:
+                rp = body.provenance(dc.args[1])
+                m = re.match(r"^Range\{const:(\d+),const:(\d+)\}$", rp)
+                if m:
+                    out.append(("const:%d" % (int(m.group(2)) - int(m.group(1))), 0, None))
+                m = re.match(r"^RangeTo\{const:(\d+)\}$", rp)
+                if m:
+                    out.append(("const:%d" % int(m.group(1)), 0, None))
+            if dc.name in ("as_mut_slice", "as_slice", "as_array", "as_mut_array") and dc.args:
+                n = base_array_len(body, dc.args[0])
+                t = dc.args[0]["p"]["ty"] if dc.args[0]["c"] in ("copy", "move") else ""
+                m = re.search(r"\[u8; (\d+)\]|StackByteArray<(\d+)>", t)
+                if n is None and m:
+                    n = int(m.group(1) or m.group(2))
+                if n is not None:
+                    out.append(("const:%d" % n, 0, None))
     rx = re.compile(LEN_RX % re.escape(base))
     for g in body.guards(blk, select_aware=False):
         a = g.atom
@@ -89,31 +215,46 @@ def length_facts(body, blk, base):
                 out.append(("const:0", 1, g))
             if c.name == "has_remaining" and body.provenance(c.args[0]) == base and g.truth is True:
                 out.append(("const:0", 1, g))
+            if c.name == "starts_with" and body.provenance(c.args[0]) == base and g.truth is True and len(c.args) >= 2:
+                out.append(("core::slice::len(%s)" % body.provenance(c.args[1]), 0, g))
             continue
         if a[0] != "cmp" or g.truth is None:
             continue
         op = a[1]
-        x, y = body.provenance(a[2]), body.provenance(a[3])
+        xo, yo = a[2], a[3]
+        x, y = body.provenance(xo), body.provenance(yo)
         if not g.truth:
             op = {"Lt": "Ge", "Le": "Gt", "Gt": "Le", "Ge": "Lt", "Eq": "Ne", "Ne": "Eq"}[op]
-        # normalise to  L op X
         if rx.match(y) and not rx.match(x):
-            x, y = y, x
+            x, y, xo, yo = y, x, yo, xo
             op = {"Lt": "Gt", "Le": "Ge", "Gt": "Lt", "Ge": "Le", "Eq": "Eq", "Ne": "Ne"}[op]
         if rx.match(x):
-            if op == "Ge":
-                out.append((y, 0, g))
-            elif op == "Gt":
-                out.append((y, 1, g))
-            elif op == "Eq":
-                out.append((y, 0, g))
+            delta = {"Ge": 0, "Gt": 1, "Eq": 0}.get(op)
+            if delta is not None:
+                out.append((y, delta, g))
+                vs = body.eval_ints(yo)
+                if vs and const_of(y) is None:
+                    out.append(("const:%d" % min(vs), delta, g))
             continue
-        # cursor idiom: position(cursor) < len(whatever)  =>  remaining(cursor) >= 1
         if op == "Lt" and re.search(r"Cursor::position\(%s\)$" % re.escape(base), x):
             out.append(("const:0", 1, g))
         if op == "Gt" and re.search(r"Cursor::position\(%s\)$" % re.escape(base), y):
             out.append(("const:0", 1, g))
     return out
+
+
+def simplify(s):
+    """fold constant arithmetic inside a provenance string"""
+    if s is None:
+        return s
+    prev = None
+    while prev != s:
+        prev = s
+        s = re.sub(r"Add\(const:(-?\d+),const:(-?\d+)\)", lambda m: "const:%d" % (int(m.group(1)) + int(m.group(2))), s)
+        s = re.sub(r"Sub\(const:(-?\d+),const:(-?\d+)\)", lambda m: "const:%d" % (int(m.group(1)) - int(m.group(2))), s)
+        s = re.sub(r"Mul\(const:(-?\d+),const:(-?\d+)\)", lambda m: "const:%d" % (int(m.group(1)) * int(m.group(2))), s)
+        s = re.sub(r"const:[\w:<>]*::([A-Z_]+)\b(?=[,)}]|$)", lambda m: m.group(0), s)
+    return s
 
 
 def const_of(s):
@@ -123,12 +264,21 @@ def const_of(s):
 
 def amount_satisfied(facts_, amount):
     """is len >= amount implied by one of the facts?  amount: provenance string"""
+    amount = simplify(amount)
+    facts_ = [(simplify(x), d, g) for x, d, g in facts_]
     ca = const_of(amount)
+    if ca is not None and ca <= 0:
+        return True
     for x, delta, g in facts_:
+        g = g if g is not None else True
         cx = const_of(x)
         if ca is not None and cx is not None and cx + delta >= ca:
             return g
         if x == amount:
+            return g
+        # amount = Sub(X, const:k)
+        m = re.match(r"^Sub\((.*),const:\d+\)$", amount)
+        if m and m.group(1) == x:
             return g
         # X = Add(amount, k) or Add(k, amount)
         m = re.match(r"^Add\((.*)\)$", x)
@@ -146,106 +296,175 @@ def amount_satisfied(facts_, amount):
     return None
 
 
+def _split_top(inner):
+    depth = 0
+    cut = None
+    for i, ch in enumerate(inner):
+        if ch in "({":
+            depth += 1
+        elif ch in ")}":
+            depth -= 1
+        elif ch == "," and depth == 0:
+            cut = i
+    return (inner[:cut], inner[cut + 1:]) if cut is not None else (inner, None)
+
+
+def range_end(r):
+    """amount of bytes a range argument needs"""
+    if r.startswith("Range{"):
+        a, b = _split_top(r[len("Range{"):-1])
+        return b
+    m = re.match(r"^RangeTo\{(.*)\}$", r)
+    if m:
+        return m.group(1)
+    m = re.match(r"^RangeFrom\{(.*)\}$", r)
+    if m:
+        return m.group(1)
+    m = re.match(r"^RangeInclusive\{", r)
+    if m:
+        return None
+    if r.startswith("RangeFull"):
+        return "const:0"
+    ci = const_of(r)
+    if ci is not None:
+        return "const:%d" % (ci + 1)
+    return "Add(%s,const:1)" % r
+
+
+def base_operand_of_assert(body, t):
+    m = re.search(r"len: (?:move|copy) _(\d+)", t["msg"])
+    if not m:
+        return None
+    ds = body.whole_defs(int(m.group(1)))
+    if len(ds) == 1 and ds[0][0] == "assign":
+        rv = ds[0][3]["r"]
+        if rv["k"] == "unop" and rv["op"] == "PtrMetadata":
+            return rv["o"]
+    return None
+
+
 def requirement(body, blk, kind, call):
-    """(base provenance, amount provenance) meaning the site needs len(base) >= amount; amount None = unknown"""
+    """(base provenance, amount provenance, base operand): the site needs len(base) >= amount; amount None = unknown"""
     t = body.term(blk)
     if kind == "index" and t["k"] == "assert":
         bk, base = base_of_assert(body, t)
         idx = index_of_assert(body, t)
+        bop = base_operand_of_assert(body, t)
         if idx is None:
-            return base, None
+            return base, None, bop
         ci = const_of(idx)
-        return base, ("const:%d" % (ci + 1)) if ci is not None else "Add(%s,const:1)" % idx
+        return base, (("const:%d" % (ci + 1)) if ci is not None else "Add(%s,const:1)" % idx), bop
     c = call
-    base = body.provenance(c.args[0]) if c.args else None
-    if kind in ("index", "index_mut") and len(c.args) >= 2:
-        r = body.provenance(c.args[1])
-        m = re.match(r"^Range\{(.*),(.*)\}$", r)
-        if m:
-            # greedy split may be wrong for nested commas; take the last top-level comma
-            inner = r[len("Range{"):-1]
-            depth = 0
-            cut = None
-            for i, ch in enumerate(inner):
-                if ch in "({":
-                    depth += 1
-                elif ch in ")}":
-                    depth -= 1
-                elif ch == "," and depth == 0:
-                    cut = i
-            return base, inner[cut + 1:] if cut is not None else None
-        m = re.match(r"^RangeTo\{(.*)\}$", r)
-        if m:
-            return base, m.group(1)
-        m = re.match(r"^RangeFrom\{(.*)\}$", r)
-        if m:
-            return base, m.group(1)
-        if r.startswith("RangeFull"):
-            return base, "const:0"
-        ci = const_of(r)
-        if ci is not None:
-            return base, "const:%d" % (ci + 1)
-        return base, "Add(%s,const:1)" % r
-    if kind in ("split_to", "split_off", "advance", "copy_to_bytes", "truncate") and len(c.args) >= 2:
-        return base, body.provenance(c.args[1])
+    bop = c.args[0] if c.args else None
+    base = body.provenance(bop) if bop else None
+    if kind in ("index", "index_mut", "drain", "slice") and len(c.args) >= 2:
+        return base, range_end(body.provenance(c.args[1])), bop
+    if kind in ("split_to", "split_off", "advance", "copy_to_bytes") and len(c.args) >= 2:
+        return base, body.provenance(c.args[1]), bop
     if kind.startswith("get_"):
         n = {"get_u8": 1, "get_i8": 1, "get_u16": 2, "get_i16": 2, "get_u32": 4, "get_i32": 4, "get_u64": 8, "get_i64": 8}.get(kind.replace("_le", ""))
-        return base, ("const:%d" % n) if n else None
+        return base, (("const:%d" % n) if n else None), bop
     if kind == "copy_to_slice" and len(c.args) >= 2:
-        dst = body.provenance(c.args[1])
-        m = re.search(r"from_elem\(const:\d+,(.*)\)$", dst) or re.search(r"from_elem\((.*)\)$", dst)
-        return base, (m.group(1).split(",", 1)[-1] if m else None)
-    return base, None
+        dc = base_def_call(body, c.args[1])
+        if dc is not None and dc.name == "from_elem" and len(dc.args) >= 2:
+            return base, body.provenance(dc.args[1]), bop
+        return base, None, bop
+    return base, None, bop
+
+
+def capacity_proved(body, blk, call):
+    """growth of the 255-slot FrameBatch dominated by a comparison of its len() with the capacity constant"""
+    base = body.provenance(call.args[0]) if call.args else None
+    if base is None:
+        return None
+    lenrx = re.compile(r"message::FrameBatch::len\(%s\)" % re.escape(base))
+    for g in body.guards(blk, select_aware=False):
+        if g.atom[0] != "cmp" or g.truth is None:
+            continue
+        op = g.atom[1]
+        x, y = simplify(body.provenance(g.atom[2])), simplify(body.provenance(g.atom[3]))
+        if not g.truth:
+            op = {"Lt": "Ge", "Le": "Gt", "Gt": "Le", "Ge": "Lt", "Eq": "Ne", "Ne": "Eq"}[op]
+        cap = lambda v: const_of(v) == 255 or v.endswith("FrameBatch::MAX_FRAMES")
+        if lenrx.search(x) and cap(y):
+            if (x.startswith("message::FrameBatch::len(") and op == "Lt") or (x.startswith("Add(") and op in ("Le", "Lt")):
+                return "bounded by the capacity check bb%d: %s" % (g.s, describe_guard(body, g)[:120])
+        if lenrx.search(y) and cap(x):
+            if (y.startswith("message::FrameBatch::len(") and op == "Gt") or (y.startswith("Add(") and op in ("Ge", "Gt")):
+                return "bounded by the capacity check bb%d: %s" % (g.s, describe_guard(body, g)[:120])
+    return None
+
+
+def unwrap_proved(body, blk, call):
+    """Option::unwrap dominated by is_some()/is_none() of the same value; try_into().unwrap() of a constant-width range into an array"""
+    prov = body.provenance(call.args[0])
+    for g in body.guards(blk, select_aware=False):
+        if g.atom[0] == "call" and g.truth is not None:
+            c = g.atom[1]
+            if c.args and body.provenance(c.args[0]) == prov:
+                if (c.name == "is_none" and g.truth is False) or (c.name == "is_some" and g.truth is True) or (c.name == "is_ok" and g.truth is True) or (c.name == "is_err" and g.truth is False):
+                    return "dominated by %s() == %s on the same value" % (c.name, g.truth)
+    if "try_into(" in prov:
+        dc = base_def_call(body, call.args[0])
+        # receiver = try_into(index(X, Range{a, a+k}))  with Result<[u8; k], _>
+        ty = call.args[0]["p"]["ty"] if call.args[0]["c"] in ("copy", "move") else ""
+        m = re.search(r"\[u8; (\d+)\]", ty)
+        if dc is not None and dc.name == "try_into" and m and dc.args:
+            ic = base_def_call(body, dc.args[0])
+            if ic is not None and ic.name in ("index",) and len(ic.args) >= 2:
+                r = body.provenance(ic.args[1])
+                if r.startswith("Range{"):
+                    a, b = _split_top(r[len("Range{"):-1])
+                    k = int(m.group(1))
+                    ca, cb = const_of(a), const_of(b) if b else None
+                    if (ca is not None and cb is not None and cb - ca == k) or b in ("Add(%s,const:%d)" % (a, k), "Add(const:%d,%s)" % (k, a)):
+                        return "slice of constant width %d converted into [u8; %d]" % (k, k)
+    return None
+
+
+def exact_len(body, o, depth=0):
+    """exact constant length of the slice an operand refers to, when it is fixed by construction"""
+    if depth > 4:
+        return None
+    if o["c"] == "const":
+        m = re.search(r"\[u8; (\d+)\]", o.get("ty", ""))
+        return int(m.group(1)) if m else None
+    n = base_array_len(body, o)
+    if n is not None:
+        return n
+    dc = base_def_call(body, o)
+    if dc is None:
+        return None
+    m = re.search(r"^\[u8; (\d+)\]$", dc.dest["ty"])
+    if m:
+        return int(m.group(1))
+    if dc.name in ("index", "index_mut") and len(dc.args) >= 2:
+        r = simplify(body.provenance(dc.args[1]))
+        m = re.match(r"^Range\{const:(\d+),const:(\d+)\}$", r)
+        if m:
+            return int(m.group(2)) - int(m.group(1))
+        m = re.match(r"^RangeTo\{const:(\d+)\}$", r)
+        if m:
+            return int(m.group(1))
+        m = re.match(r"^RangeFrom\{const:(\d+)\}$", r)
+        if m:
+            inner = exact_len(body, dc.args[0], depth + 1)
+            return inner - int(m.group(1)) if inner is not None else None
+        return None
+    if dc.name in ("as_mut_slice", "as_slice") and dc.args:
+        t = dc.args[0]["p"]["ty"] if dc.args[0]["c"] in ("copy", "move") else ""
+        m = re.search(r"\[u8; (\d+)\]|StackByteArray<(\d+)>", t)
+        if m:
+            return int(m.group(1) or m.group(2))
+        return exact_len(body, dc.args[0], depth + 1)
+    if dc.name == "split_to" and len(dc.args) >= 2:
+        return const_of(simplify(body.provenance(dc.args[1])))
+    return None
 
 
 def copy_from_slice_const(body, c):
-    """dst is a fixed array of N bytes and src a slice taken with a constant range of length N"""
-    def arr_len(o):
-        org = o
-        for _ in range(6):
-            if org["c"] not in ("copy", "move") or org["p"]["pr"]:
-                return None
-            ds = body.whole_defs(org["p"]["l"])
-            if len(ds) != 1 or ds[0][0] != "assign":
-                return None
-            rv = ds[0][3]["r"]
-            if rv["k"] == "ref":
-                m = re.match(r"^\[u8; (\d+)\]$", rv["p"]["ty"])
-                return int(m.group(1)) if m else None
-            if rv["k"] in ("use", "cast"):
-                org = rv["o"]
-                continue
-            return None
-        return None
-    n = arr_len(c.args[0])
-    if n is None:
-        return False
-    src = body.provenance(c.args[1])
-    m = re.search(r"Range\{const:(\d+),const:(\d+)\}", "")
-    # src = index(X, Range{const a, const b}) : look at the defining call of src
-    org = body.value_origin(c.args[1])
-    o = c.args[1]
-    for _ in range(6):
-        if o["c"] not in ("copy", "move") or o["p"]["pr"]:
-            return False
-        ds = body.whole_defs(o["p"]["l"])
-        if len(ds) != 1:
-            return False
-        d = ds[0]
-        if d[0] == "call":
-            cc = mir.Call(body, d[1], d[3])
-            if cc.name in ("index", "index_mut") and len(cc.args) >= 2:
-                r = body.provenance(cc.args[1])
-                m = re.match(r"^Range\{const:(\d+),const:(\d+)\}$", r)
-                if m and int(m.group(2)) - int(m.group(1)) == n:
-                    return True
-            return False
-        if d[0] == "assign" and d[3]["r"]["k"] in ("use", "cast", "ref", "copyderef"):
-            rv = d[3]["r"]
-            o = rv["o"] if "o" in rv else {"c": "copy", "p": rv["p"]}
-            continue
-        return False
-    return False
+    a, b = exact_len(body, c.args[0]), exact_len(body, c.args[1])
+    return a is not None and a == b
 
 
 def u64_parsed(body, o, depth=0):
@@ -329,7 +548,8 @@ def panic_sites(prog):
                     kind, base = nm, (body.provenance(c.args[0]) if c.args else None)
             if kind is None:
                 continue
-            k0 = "%s|%s|%s" % (short(cpath), kind, (base or "-")[:110])
+            ids = re.findall(r"[A-Za-z_][A-Za-z_0-9]*", re.sub(r"@\w+|\bconst\b", "", base or ""))
+            k0 = "%s|%s|%s" % (short(cpath), kind, ids[-1] if ids else "-")
             n = seen.get(k0, 0)
             seen[k0] = n + 1
             key = k0 if n == 0 else "%s#%d" % (k0, n)
@@ -357,14 +577,22 @@ def r1_panic_cone(chk):
         for body, blk, kind, base, key, call in sites:
             # (i) exact proof
             proved = None
-            if kind in ("index", "index_mut", "split_to", "split_off", "advance", "copy_to_bytes", "copy_to_slice") or kind.startswith("get_"):
-                b2, amount = requirement(body, blk, kind, call)
+            if kind in ("index", "index_mut", "split_to", "split_off", "advance", "copy_to_bytes", "copy_to_slice", "drain", "slice") or kind.startswith("get_"):
+                b2, amount, bop = requirement(body, blk, kind, call)
                 if amount is not None:
-                    g = amount_satisfied(length_facts(body, blk, b2), amount)
-                    if g is not None:
-                        proved = "len(%s) >= %s by bb%d: %s" % (b2, amount, g.s, describe_guard(body, g)[:120])
-                    elif const_of(amount) == 0:
-                        proved = "needs no bytes"
+                    m_ = re.match(r"^std::cmp::Ord::min\((?:core::slice|std::vec::Vec|bytes::BytesMut)::len\((.*)\)\)$", amount)
+                    if m_ and m_.group(1) == b2:
+                        proved = "amount is min(len(%s), ..) <= len" % b2
+                    else:
+                        g = amount_satisfied(length_facts(body, blk, b2, bop), amount)
+                        if g is True:
+                            proved = "len(%s) >= %s by construction (fixed-size array / split_to / constant range)" % (b2[-60:], amount)
+                        elif g is not None:
+                            proved = "len(%s) >= %s by bb%d: %s" % (b2[-60:], amount, g.s, describe_guard(body, g)[:120])
+            elif kind in ("unwrap", "expect") and call is not None:
+                proved = unwrap_proved(body, blk, call)
+            elif kind in ("push", "insert", "extend", "from") and call is not None:
+                proved = capacity_proved(body, blk, call)
             elif kind == "copy_from_slice" and call is not None and copy_from_slice_const(body, call):
                 proved = "destination array and constant source range have the same length"
             if proved:
@@ -384,6 +612,193 @@ def r1_panic_cone(chk):
         r.require(cfg, floor, "panic-capable sites in the ingress cone")
 
 
+def r2_maxmsgsize(chk):
+    r = chk.rule("R2", "MAXMSGSIZE is checked before allocation, strictly", "T3 guarded-by + T2 sibling agreement",
+                 "in every manual decoder: frames are refused iff raw_size > max_msg_size (limit accepted, limit+1 rejected; check active iff max >= 0) and the check dominates the `as usize` cast and every buffer split/copy")
+    for cfg, prog in chk.configs():
+        for body in prog.bodies.values():
+            if body.impl_self != "protocol::zmtp::manual_parser::ZmtpManualParser" or body.name not in ("decode_from_buffer", "decode_frame_from_slice", "decode_frame_from_bytes", "peek_frame_len") or body.kind == "closure":
+                continue
+            key = "%s|size check" % short(body.path)
+            gt_edges, ge_edges, bad_ops = [], [], []
+            for sblk in range(body.n):
+                t = body.term(sblk)
+                if t["k"] != "switch" or t["dty"] != "bool":
+                    continue
+                a, pol = body.cond_atom(t["d"])
+                if a[0] != "cmp":
+                    continue
+                x, y = body.provenance(a[2]), body.provenance(a[3])
+                if "max_msg_size" not in x and "max_msg_size" not in y:
+                    continue
+                op = a[1]
+                if "max_msg_size" in x and "max_msg_size" not in y:
+                    x, y = y, x
+                    op = {"Lt": "Gt", "Le": "Ge", "Gt": "Lt", "Ge": "Le", "Eq": "Eq", "Ne": "Ne"}[op]
+                if not pol:
+                    op = {"Lt": "Ge", "Le": "Gt", "Gt": "Le", "Ge": "Lt", "Eq": "Ne", "Ne": "Eq"}[op]
+                # now:  x op max   (x = raw size or const 0)
+                t_lab, f_lab = body.bool_edge_label(sblk, True), body.bool_edge_label(sblk, False)
+                if const_of(simplify(x)) == 0:
+                    # 0 <= max  /  max >= 0  : "limit active"
+                    if op in ("Le",):
+                        ge_edges.append((sblk, f_lab))  # false edge = unlimited
+                    elif op in ("Gt",):
+                        ge_edges.append((sblk, t_lab))
+                    else:
+                        bad_ops.append("activation test `0 %s max`" % op)
+                else:
+                    if op == "Gt":
+                        gt_edges.append((sblk, f_lab))  # false edge = accepted
+                    elif op == "Le":
+                        gt_edges.append((sblk, t_lab))
+                    else:
+                        bad_ops.append("size test `size %s max` (must reject exactly size > max)" % op)
+            if bad_ops:
+                r.bad(cfg, key, where(body, 0), "; ".join(bad_ops))
+                continue
+            if not gt_edges:
+                r.bad(cfg, key, where(body, 0), "no comparison of the announced frame size with max_msg_size found")
+                continue
+            if not ge_edges:
+                r.bad(cfg, key, where(body, 0), "no `max_msg_size >= 0` activation test found (negative = unlimited)")
+                continue
+            r.ok(cfg, key, where(body, gt_edges[0][0]), "rejects iff size > max, active iff max >= 0")
+            # allocation-ish sites must be unreachable once both accepting edges are removed
+            sites = []
+            for b, i, st in body.statements():
+                if st["k"] == "assign" and st["r"]["k"] == "cast" and st["r"]["ck"] == "IntToInt" and st["r"]["from"] == "u64" and st["r"]["to"] == "usize":
+                    if "from_be_bytes" in body.provenance(st["r"]["o"]) or "raw_size" in body.provenance(st["r"]["o"]):
+                        sites.append((b, "raw_size as usize"))
+            for c in body.calls:
+                if c.name in ("split_to", "to_vec", "slice", "with_capacity", "reserve", "copy_to_bytes") and c.blk in body.live_blocks():
+                    # only those in the header-parsing state (dominated by the size test block's predecessors): skip ReadBody-state sites
+                    sites.append((c.blk, c.name))
+            reach = body.reachable([0], avoid_edges=set(gt_edges) | set(ge_edges))
+            for b, what in sites:
+                k2 = "%s|%s after size check" % (short(body.path), what)
+                # sites in a different decoder state (resumed body read) are reachable without re-checking: they use the stored, already checked size
+                if b in reach:
+                    gs = [g for g in body.guards(b, select_aware=False) if g.atom[0] == "discr" and ".state" in g.atom[1] and g.label != 0]
+                    if gs:
+                        r.ok(cfg, k2 + " (ReadBody state)", where(body, b), "resumes with the size that was checked when the header was parsed")
+                        continue
+                    r.bad(cfg, k2, where(body, b), "`%s` is reachable without passing the MAXMSGSIZE comparison: an oversized announced length is cast/allocated before it is refused" % what)
+                else:
+                    r.ok(cfg, k2, where(body, b))
+        r.require(cfg, 8, "size-check obligations in the four manual decoders")
+
+
+def r3_accumulator_cap(chk):
+    r = chk.rule("R3", "the read accumulator is capped before every network read", "T3 guarded-by",
+                 "read_and_process refuses to read while engine.buffer_len() exceeds the hard cap")
+    for cfg, prog in chk.configs():
+        for body in prog.find_bodies(r"message_processor::ZmqMessageProcessor::read_and_process::\{closure#0\}$"):
+            reads = [c for c in body.calls if c.name in ("read_buf", "try_read_chunk", "read")]
+            for c in reads:
+                key = "%s|%s under cap" % (short(body.path), c.name)
+                ok = False
+                for g in body.guards(c.blk, select_aware=False):
+                    nc = norm_cmp(body, g)
+                    if nc and "buffer_len" in body.provenance(g.atom[2]) + body.provenance(g.atom[3]) and isinstance(nc[2], int):
+                        lo, hi = interval(nc[1], nc[2])
+                        if hi != INF and hi <= 64 * 1024 * 1024:
+                            ok = True
+                if ok:
+                    r.ok(cfg, key, where(body, c.blk), "dominated by buffer_len() <= cap")
+                else:
+                    r.bad(cfg, key, where(body, c.blk), "network read not dominated by an upper bound on the engine's unread accumulator: a peer that never completes a frame makes the session buffer without bound")
+        r.require(cfg, 2, "network reads in read_and_process")
+
+
+def r5_handshake_deadline(chk):
+    r = chk.rule("R5", "the handshake interval is an absolute deadline", "T4 loop-invariance of the time bound",
+                 "inside the handshake read loop the time bound is a deadline fixed before the loop (timeout_at), not a per-read timeout that every byte re-arms")
+    for cfg, prog in chk.configs():
+        n = 0
+        for body in prog.find_bodies(r"sessionx::actor::SessionConnectionActorX::run_loop::\{closure#0\}$"):
+            for c in body.calls:
+                if not c.matches(r"^tokio::time::(timeout|timeout_at)$"):
+                    continue
+                loops = body.loops_containing(c.blk)
+                if not loops:
+                    continue
+                h, lb = loops[0]
+                if not any(x.matches(r"ZmtpEngine::on_network_bytes$") and x.blk in lb for x in body.calls):
+                    continue
+                n += 1
+                key = "%s|handshake read time bound" % short(body.path)
+                org = body.value_origin(c.args[0])
+                if org[0] == "call":
+                    inside = org[1].blk in lb
+                elif org[0] == "place":
+                    inside = any(b in lb for b in body.def_blocks(org[1]["l"]))
+                else:
+                    inside = False
+                if c.name == "timeout_at" and not inside:
+                    r.ok(cfg, key, where(body, c.blk), "timeout_at(deadline) with the deadline computed before the loop")
+                elif c.name == "timeout" and inside:
+                    r.ok(cfg, key, where(body, c.blk), "timeout(remaining) recomputed on every iteration")
+                elif c.name == "timeout":
+                    r.bad(cfg, key, where(body, c.blk), "per-read `timeout(d, read)` with a loop-invariant duration: the limit restarts on every read, so a peer dripping one byte per interval is never disconnected (handshake_deadline is not consulted)")
+                else:
+                    r.bad(cfg, key, where(body, c.blk), "timeout_at deadline recomputed inside the loop: it moves with every read")
+        if n == 0:
+            r.bad(cfg, "anchor|handshake loop", "-", "no timed read found in the session's handshake loop: the handshake has no time limit")
+        # sibling back-end
+        if cfg in ("full-linux",):
+            uses = []
+            for body in prog.bodies.values():
+                if "io_uring_backend" not in body.path:
+                    continue
+                for b, i, st in body.statements():
+                    if st["k"] == "assign":
+                        rv = st["r"]
+                        for pl in ([rv.get("p")] if rv.get("p") else []) + ([rv["o"]["p"]] if rv.get("o", {}).get("p") else []):
+                            if pl and any(e[0] == "field" and e[2] in ("handshake_timeout", "handshake_deadline") for e in pl["pr"]):
+                                uses.append(body.path)
+            key = "io_uring_backend|handshake timer"
+            if uses:
+                r.ok(cfg, key, uses[0], "the io_uring handler reads the handshake time limit")
+            else:
+                r.bad(cfg, key, "core/src/io_uring_backend/zmtp_handler.rs", "the io_uring connection handler never reads handshake_timeout/handshake_deadline: a peer that stalls the handshake on the io_uring backend is never disconnected (sibling back-end disagreement)")
+
+
+def r6_permit(chk):
+    r = chk.rule("R6", "the connection permit lives as long as the session", "T1 who-may-write",
+                 "_connection_permit is written only by the constructor and never taken")
+    for cfg, prog in chk.configs():
+        n = 0
+        for body in prog.bodies.values():
+            if "::tests" in body.path:
+                continue
+            for b, i, st in body.statements():
+                if st["k"] != "assign":
+                    continue
+                p = st["p"]
+                if p["pr"] and p["pr"][-1][0] == "field" and p["pr"][-1][2] == "_connection_permit":
+                    n += 1
+                    r.bad(cfg, "%s|writes _connection_permit" % short(body.path), where(body, b), "the MAX_CONNECTIONS permit is overwritten after construction: the slot is released while the session lives")
+            for c in body.calls:
+                if c.name in ("take", "replace") and (c.recv() or "").endswith("._connection_permit"):
+                    r.bad(cfg, "%s|takes _connection_permit" % short(body.path), where(body, c.blk), "the MAX_CONNECTIONS permit is taken out of the session before it ends")
+            for b, i, st in body.aggregates():
+                rv = st["r"]
+                if rv.get("adt", "").endswith("SessionConnectionActorX") and "_connection_permit" in rv.get("fields", []):
+                    idx = rv["fields"].index("_connection_permit")
+                    prov = body.provenance(rv["ops"][idx])
+                    key = "%s|constructs session with permit" % short(body.path)
+                    if prov in ("const",) or "None" in prov:
+                        r.bad(cfg, key, where(body, b), "session constructed with a constant permit value")
+                    else:
+                        r.ok(cfg, key, where(body, b), "permit moved in from the caller: " + prov[:80])
+        r.require(cfg, 1, "session constructor storing the permit")
+
+
 def run(chk):
     chk.undecided = ["'keeps decoding' liveness", "memory bounds other than MAXMSGSIZE and the accumulator cap", "panics inside external crates beyond the summary list"]
     r1_panic_cone(chk)
+    r2_maxmsgsize(chk)
+    r3_accumulator_cap(chk)
+    r5_handshake_deadline(chk)
+    r6_permit(chk)
